@@ -864,7 +864,7 @@ func sequential(r *mon.Run) {
 		}
 	}()
 	rng := r.Rand("datagrams")
-	n := r.N(20000, 1000000)
+	n := r.N(20000, 600000)
 	ts := int64(1_700_000_000_000_000_000)
 	// the textbook cases first (shard 0): same gauge twice, with and without trailing newline, for every configuration
 	if s, _ := r.Shard(); s == 0 {
@@ -930,7 +930,8 @@ func stress(r *mon.Run) {
 	rounds := r.N(8, 64)
 	perProducer := r.Pick(400, 1500)
 	for round := 0; round < rounds; round++ {
-		cfg := configs[round%len(configs)]
+		shard, _ := r.Shard()
+		cfg := configs[(round+shard)%len(configs)]
 		in := make(chan []*statsd.Datagram, 2)
 		h := &capture{}
 		pool := &bufPool{}
@@ -1116,14 +1117,20 @@ func TestCheck(t *testing.T) {
 	defer r.Finish()
 	r.Rule("cases: batches of 1-3 datagrams of 1-40 lines drawn from: valid lines of a small name/tag pool (so series collide; names needing in-place normalisation, host: tags in every position, rates, all five type letters), grammar derivations of metrics and events, events, empty lines, fixed invalid lines, single-point mutations, random bytes (some with NUL), all-junk names; with and without trailing newline; 6 parser configurations (namespace x ignore-host x estimated tags); one case in five repeats one gauge 2-4 times (same name after normalisation, same tag set in any order) with other lines in between. The batch goes through parser A in recycled 64 KiB buffers overwritten with 0xAA when released; each line goes alone through an identically configured parser B in a private buffer; A must equal the reference fold of B's results in line order (series, values, tags, source, timestamp, events in order), counters of both parsers must equal the number of lines giving a metric / an event / nothing; built lines are also compared with their parser-independent expectation; everything dispatched for the previous case is re-read after its buffers were reused. Stress: 4 parsers on one channel, 3 producers, one buffer pool, per-datagram unique names, union of all maps / events / counters against the independent expectation. Non-trivial: a datagram in which lines of different classes (metric, normalised metric, event, rejected, empty) are adjacent, or a gauge set more than once; distinct by (adjacent class pair, ignore-host, namespace, trailing newline, batch size), (gauge repeat count, separated, tag variants, ignore-host) and stress configuration.")
 	r.Assume("an empty line between two newlines is a rejected line (current tree); a final empty segment is not a line")
+	r.Assume("with ignore-host and no host: tag the source stays empty (current tree; the statement is silent)")
 	r.Assume("the unbuffered input channel makes 'the batch before the fence is completely processed' observable")
 
 	if p := r.ReplayPayload(); p != nil {
 		replay(t, r, p)
 		return
 	}
+	t0 := time.Now()
 	sequential(r)
+	t1 := time.Now()
 	stress(r)
+	// measured cost per part, summed over the shards (evidence only)
+	r.Extra("sequential_s", t1.Sub(t0).Seconds())
+	r.Extra("stress_s", time.Since(t1).Seconds())
 }
 
 func replay(t *testing.T, r *mon.Run, p []byte) {
